@@ -188,7 +188,7 @@ func checkC05(r *evid.Run) {
 		if d.N%1499 == 0 {
 			r.Sample(map[string]any{"doc": docString(d.Doc), "walk": expectWalk(d.Walk, concs[0])})
 		}
-		checkWalkState(r, d, concs)
+		checkWalkState(r, d, append(append([]*tok.Conc{}, concs...), tok.WithBranches(concs[0], d.N))) // + one branch-string set in turn
 	})
 	// the walk under every option sequence (Options.tla): options a walk has no use for change nothing
 	checkOptions(r, "rule", []int{0}, func(s *optState) bool { return s.Op == "walk" && !s.has("massive") })
